@@ -754,6 +754,10 @@ func (pe *PolicyEngine) addRepresentativePod(podNs string, objSelectors *k8s.Sin
 		return errors.New(netpolerrors.NilNamespaceAndNilNsSelectorErr)
 	}
 	if nsLabelSelector == nil && podNs != "" {
+		// the representative pod lives in the policy's namespace; that namespace may have no Namespace manifest (and no workloads)
+		if err := pe.resolveSingleMissingNamespace(podNs); err != nil {
+			return err
+		}
 		// if the objSelectors.NsSelector is nil, means inferred from a rule with nil nsSelector, which means the namespace of the
 		// pod is the namespace of the policy, so adding it as its RepresentativeNsLabelSelector requirement.
 		// by this, we ensure a representative peer may only represent the rule it was inferred from
